@@ -18,17 +18,27 @@ RULE = ('random portfolios, each re-run (a) under an adversarial injective renam
         '(c) rename-inplace: the objects are built once under the original names and, as drawn, optimised / set up / left alone; then the very same Node and Asset objects (incl. base assets of scaled and wrapped assets of structured assets) '
         'get the names of (a) by assignment to .name and are given to a new Portfolio (as drawn: permuted, on a new time grid object); same comparison as for (a); '
         'values compared and the solution of each variant transported block-wise into the original problem; non-trivial = solved, >= 3 assets, value != 0; distinct by scenario hash; '
+        'second stage of every variant (rename, permute, rename+permute, permute-inner, rename-inplace; both streams): re-optimisation with fix_time_window - the same portfolio object set up again with a window drawn '
+        'from the seed (prefix of k steps given as date / boolean mask / index array / index list, a window in the middle, or a drawn subset of the steps) pinned to the FIRST-stage solution of the original, '
+        'carried over into the variant\'s variable order (block-wise; permute-inner: through the wrapped asset a variable belongs to), with changed prices on the free steps; compared with the same second stage of the '
+        'original exactly as in the first stage: raises in one and not the other, size, status, value, solution transported into the original second-stage problem (feasible, same value), reported dispatch balances, '
+        'reported cash flow per asset = cost of its own variables; '
         'LinkedAsset stream (own generator gen_linked): small MIP portfolios around a LinkedAsset wrapping a CHPAsset/Plant with on-variable and a second asset (plant, contract at the power node or at an internal node behind a transport), '
         'link given by names or by objects, all wrapped assets on the same window (none / the wrapper\'s / a common own one); variants rename, permute, rename+permute, permute-inner, rename-inplace; same oracle; '
         'probe linked-inner-order: one of the two linked wrapped assets gets a shorter window (drawn: which, start or end, which one comes last); set up in the drawn and in the reversed inner order, outcomes compared (finding F-09e)')
 ASSUMPTIONS = ['ties between optimal solutions are allowed: solutions are compared by transporting them into the other problem (feasibility + value), not entry by entry',
+               'second stage (re-optimisation with fix_time_window): original and variant are pinned to the SAME first-stage solution (that of the original, relabelled), so that ties of the first stage do not '
+               'enter; WHICH variables a window pins is C15\'s subject - here only that it does not depend on names and order; a set-up with fix_time_window that raises for the original AND for the variant is not reported here',
                'rename-inplace: what is renamed are Node.name and Asset.name (public attributes); a Portfolio files its nodes under their names when it is created, so after the renaming '
                'every Portfolio object - the outer one and the one wrapped by a structured asset - is created anew from the same asset objects (re-using a Portfolio created before the renaming is not claimed to work); '
                'rename-inplace with a LinkedAsset: LinkedAsset.__init__ turns the two nodes of its link into name strings (for a node that is not one of its own nodes: <own name>_internal_<node name>), and set-up raises IndexError '
                'when these no longer match; renaming the NODES of a LinkedAsset (own and wrapped) in place is therefore out of scope and these nodes keep their names in this variant (other nodes and all assets are renamed); '
                'TODO, decision pending: for the same reason a LinkedAsset whose link names an internal node keeps its OWN name in this variant. The rebuilt variants (rename, rename+permute) rename everything',
                'LinkedAsset stream: all wrapped assets live on the same window; with differing windows the set-up depends on the order of the wrapped assets (probe linked-inner-order, finding F-09e) - the other variants are not run there']
-EXPLANATION = 'theorems about the model assemble; metamorphic oracle on the real code'
+EXPLANATION = 'theorems about the model assemble; metamorphic oracle on the real code (optimisation, and re-optimisation with a fixed time window)'
+
+# second stage (re-optimisation with fix_time_window) of every variant; development switch
+STAGE2 = True
 
 ADV = ['1', '11', '111', 'A', 'AA', 'a b', '0', '00', 'x_internal_y', 'n (m)', '10', '01', 'disp', 'nan', 'None', 'N1', '2', '12', '21', 'asset', 'node', 'mkt1 (N1)', 'é', ' ',
        # names that look like columns / labels the package itself writes
@@ -65,9 +75,138 @@ def scenarios(seed, tier):
         # variant 'rename-inplace': what happened to the objects before they were renamed, and what the second run is given
         s['inplace'] = {'first': r2.choice(['optimise', 'optimise', 'setup', 'none']), 'new_grid': r2.random() < 0.5,
                         'permute': r2.random() < 0.3}
+        draw_stage2(r2, s)
         yield 'gen%d' % i, s
     for cid, s in linked_scenarios(seed, tier):
         yield cid, s
+
+
+# ------------------------------------------------------------------ second stage: re-optimisation with a fixed time window
+def draw_stage2(r2, s):
+    """second stage of a case (a re-optimisation with `fix_time_window` and changed prices), drawn AFTER everything else of the case so
+    that the first stage is what it was: the window (a prefix of k steps = "the past", a window in the middle, or a drawn subset of the
+    steps), the form in which it is handed over (a prefix also as date; boolean mask, integer array, list of indices) and the prices
+    of the second optimisation (used on the free steps)."""
+    T = s['grid']['T_nominal']
+    mode = r2.choice(['prefix', 'prefix', 'prefix', 'middle', 'middle', 'subset'])
+    form = r2.choice(['date', 'date', 'bool', 'array', 'list'] if mode == 'prefix' else ['bool', 'bool', 'array', 'list'])
+    a = r2.randint(1, max(1, T - 2))
+    s['stage2'] = {'mode': mode, 'form': form, 'k': r2.randint(1, max(1, T - 1)), 'a': a, 'b': r2.randint(a + 1, max(a + 1, T - 1)),
+                   'bits': [r2.random() < 0.4 for _ in range(T + 2)], 'one': r2.randint(0, max(0, T - 1))}
+    s['prices2'] = {key: [v + gen.q8(r2, -4, 4) for v in vals] if key.startswith('p') else list(vals) for key, vals in s['prices'].items()}
+
+
+def stage2_window(st, tg):
+    """(mask over the steps of the grid, a FRESH object for fix_time_window['I'] in the drawn form)"""
+    T = tg.T
+    mask = np.zeros(T, dtype=bool)
+    if st['mode'] == 'prefix':
+        mask[:max(1, min(st['k'], T - 1))] = True
+    elif st['mode'] == 'middle':
+        a = min(st['a'], T - 1)
+        mask[a:max(a + 1, min(st['b'], T))] = True
+    else:
+        bits = list(st['bits'])[:T]
+        mask[:len(bits)] = bits
+        if not mask.any():
+            mask[min(st['one'], T - 1)] = True
+    if st['form'] == 'date' and st['mode'] == 'prefix':
+        # a date: all time points up to and including it (as the package defines it); zone-aware on a zone-aware grid
+        k = int(mask.sum())
+        d = tg.timepoints[k - 1]
+        mask = np.asarray(tg.timepoints <= d)
+        return mask, d.to_pydatetime()
+    if st['form'] == 'array':
+        return mask, np.flatnonzero(mask).astype(np.int64)
+    if st['form'] == 'list':
+        return mask, [int(i) for i in np.flatnonzero(mask)]
+    return mask, mask.copy()
+
+
+def stage2_prices(rec, raw, mask):
+    """prices of the second optimisation: the drawn ones on the free steps, the old ones on the pinned steps (and wherever a
+    container is not a plain series over the steps of the grid)"""
+    out = {}
+    for k, v in rec['prices'].items():
+        v = np.asarray(v, dtype=float)
+        w = np.asarray(raw.get(k, v), dtype=float)
+        out[k] = np.where(mask, v, w) if (v.shape == mask.shape and w.shape == mask.shape) else v.copy()
+    return out
+
+
+def solve_only(rec):
+    """pf.solve_rec without reading the output tables"""
+    rec['out'] = None
+    if len(rec['op'].c) == 0:
+        rec['res'] = 'empty problem'
+        return rec
+    try:
+        rec['res'] = impl.solve(rec['op'])
+    except Exception as e:
+        if type(e).__name__ != 'SolverError':
+            raise
+        try:
+            rec['res'] = impl.solve(rec['op'], solver='SCIPY')
+        except Exception:
+            rec['res'] = 'solver error'
+    return rec
+
+
+def run_stage2(rec, x_pin, st, raw, output=True):
+    """the re-optimisation a user of the package does: the SAME portfolio object set up again with fix_time_window (window of the
+    scenario, pinned to x_pin = a first-stage solution in the variable order of THIS portfolio) and the changed prices, solved, output
+    extracted (output=False: not extracted - of the original only problem and solution are used).
+    Returns {'raises': text or None, 'rec': record like pf.setup_mono + solve_rec}"""
+    tg, portf = rec['tg'], rec['portf']
+    mask, I_arg = stage2_window(st, tg)
+    prices2 = stage2_prices(rec, raw, mask)
+    rec2 = {'portf': portf, 'tg': tg, 'prices': prices2, 'scn': rec['scn'], 'captured': rec['captured'], 'mask': mask}
+    try:
+        with impl.Quiet():
+            rec2['op'] = portf.setup_optim_problem(prices2, tg, fix_time_window={'I': I_arg, 'x': np.array(x_pin, dtype=float)})
+    except Exception as e:
+        return {'raises': '%s (%s)' % (type(e).__name__, str(e)[:100]), 'rec': None}
+    if output:
+        pf.solve_rec(rec2)
+    else:
+        solve_only(rec2)
+    return {'raises': None, 'rec': rec2}
+
+
+def var_perm(rv, rec, order):
+    """sigma (array over the variables of the variant) with: variable j of the variant IS variable sigma[j] of the original.
+    order[k] = position in the original list of the variant's k-th asset (block-wise, from the SIZES of the captured asset problems);
+    order None = variant 'permute-inner': the outer order is the same and the variables of a wrapper are matched through the
+    wrapped asset they belong to (column 'internal_asset' of the wrapper's own mapping; each wrapped asset keeps its own layout).
+    None when the blocks do not match."""
+    bv = pf.asset_blocks(rv)
+    bo = pf.asset_blocks(rec)
+    av = rv['portf'].assets
+    ao = rec['portf'].assets
+    n = len(rec['op'].c)
+    if len(rv['op'].c) != n:
+        return None
+    sigma = -np.ones(n, dtype=np.int64)
+    for k, a in enumerate(av):
+        o = ao[order[k] if order is not None else k]
+        lo, hi = bv[a.name][0]
+        lo2, hi2 = bo[o.name][0]
+        if hi - lo != hi2 - lo2:
+            return None
+        sigma[lo:hi] = np.arange(lo2, hi2)
+        if order is None:
+            mv = rv['captured'][a.name].mapping
+            mo = rec['captured'][o.name].mapping
+            if 'internal_asset' in mv.columns and 'internal_asset' in mo.columns:
+                for nm in mv['internal_asset'].unique():
+                    iv = np.unique(mv.index[(mv['internal_asset'] == nm).values].values.astype(np.int64))
+                    io = np.unique(mo.index[(mo['internal_asset'] == nm).values].values.astype(np.int64))
+                    if len(iv) != len(io):
+                        return None
+                    sigma[lo + iv] = lo2 + io
+    if len(np.unique(sigma)) != n or (n and (sigma.min() != 0 or sigma.max() != n - 1)):
+        return None
+    return sigma
 
 
 # ------------------------------------------------------------------ LinkedAsset stream (the generic generator has no LinkedAsset)
@@ -172,6 +311,7 @@ def linked_scenarios(seed, tier):
         s['perm'] = perm
         s['inplace'] = {'first': r2.choice(['optimise', 'optimise', 'setup', 'none']), 'new_grid': r2.random() < 0.5,
                         'permute': r2.random() < 0.3}
+        draw_stage2(r2, s)
         yield 'linked%d' % i, s
     for i in range(m):
         r2 = random.Random(rnd.getrandbits(48))
@@ -386,7 +526,7 @@ def run_case(scn, drv):
     feats = r['features']
     if scn.get('probe') == 'linked-inner-order':
         return probe_linked_inner_order(scn, drv)
-    base = {k: v for k, v in scn.items() if k not in ('amap', 'nmap', 'perm', 'inplace', 'linked')}
+    base = {k: v for k, v in scn.items() if k not in ('amap', 'nmap', 'perm', 'inplace', 'linked', 'stage2', 'prices2')}
     for a in base['assets']:
         feats.append('asset:' + a['type'])
         if a['type'] == 'LinkedAsset':
@@ -429,6 +569,90 @@ def run_case(scn, drv):
 
     def viol(msg, **facts):
         r['violations'].append({'oracle': 'names_and_order', 'detail': msg, 'facts': facts})
+    # ---- second stage: the re-optimisation with a fixed time window (fix_time_window) is a result like any other.  The original is
+    # set up again with the window of the scenario pinned to its first-stage solution x1 and with changed prices on the free steps;
+    # every variant likewise, pinned to THE SAME solution x1 carried over into the variant's variable order (so both second-stage
+    # problems are the same problem up to the relabelling, whatever ties the first stage had); then the comparison of the first stage
+    st2 = scn.get('stage2') if (STAGE2 and V is not None) else None
+    s2o = None
+    if st2 is not None:
+        x1 = np.array(rec['res'].x, dtype=float)
+        s2o = run_stage2(rec, x1, st2, scn.get('prices2', {}), output=False)
+        r['evaluated'] += 1
+        feats.append('stage2:window=%s/%s' % (st2['mode'], st2['form']))
+        if s2o['raises']:
+            feats.append('stage2:original-raises')
+        elif len(s2o['rec']['op'].c) != len(rec['op'].c):
+            feats.append('stage2:original-size-changed')
+            s2o = None
+        else:
+            feats.append('stage2:original-' + ('unsolved' if isinstance(s2o['rec']['res'], str) else 'solved'))
+            m_ = s2o['rec']['mask']
+            feats.append('stage2:pinned-steps=%s' % ('all' if m_.all() else 'some'))
+
+    def second_stage(tag, rv, order):
+        if s2o is None:
+            return
+        sigma = var_perm(rv, rec, order)
+        if sigma is None:
+            feats.append('stage2:no-variable-matching:' + tag)
+            return
+        r['evaluated'] += 1
+        s2v = run_stage2(rv, x1[sigma], st2, scn.get('prices2', {}))
+        ro = s2o['rec']
+        if bool(s2v['raises']) != bool(s2o['raises']):
+            viol('%s, re-optimisation with fix_time_window (%s window as %s, steps %s): set-up %s although the same re-optimisation of the original portfolio %s' % (
+                tag, st2['mode'], st2['form'], [int(i) for i in np.flatnonzero(stage2_window(st2, rec['tg'])[0])],
+                ('raises ' + s2v['raises']) if s2v['raises'] else 'works', ('raises ' + s2o['raises']) if s2o['raises'] else 'sets up'),
+                variant=tag, what='stage2_raises', stage=2)
+            return
+        if s2v['raises']:
+            return
+        r2v = s2v['rec']
+        where = '%s, re-optimisation with fix_time_window (%s window as %s, steps %s pinned to the first solution, other prices changed)' % (
+            tag, st2['mode'], st2['form'], [int(i) for i in np.flatnonzero(ro['mask'])])
+        if len(r2v['op'].c) != len(ro['op'].c) or len(r2v['op'].cType) != len(ro['op'].cType):
+            viol('%s: problem has %d variables / %d rows, original %d / %d' % (where, len(r2v['op'].c), len(r2v['op'].cType), len(ro['op'].c), len(ro['op'].cType)), variant=tag, what='stage2_size', stage=2)
+            return
+        if isinstance(r2v['res'], str) != isinstance(ro['res'], str):
+            viol('%s: optimisation status differs (%s vs %s for the original)' % (where, r2v['res'] if isinstance(r2v['res'], str) else 'successful', ro['res'] if isinstance(ro['res'], str) else 'successful'),
+                 variant=tag, what='stage2_status', stage=2)
+            return
+        if isinstance(ro['res'], str):
+            return
+        V2 = float(ro['res'].value)
+        V2v = float(r2v['res'].value)
+        tol2 = 2e-6 * max(1.0, abs(V2), abs(V))
+        if abs(V2v - V2) > tol2:
+            viol('%s: optimal value %.8g, original %.8g' % (where, V2v, V2), variant=tag, what='stage2_value', stage=2)
+            return
+        x2 = np.zeros(len(ro['op'].c))
+        x2[sigma] = r2v['res'].x
+        worst, what = pf.feasibility_violation(ro['op'], x2)
+        val = -float(np.dot(ro['op'].c, x2))
+        if worst > 1e-5 or abs(val - V2) > tol2:
+            viol('%s: the solution, rearranged variable by variable, is not an optimal solution of the original re-optimisation (violates %s by %.3g; value %.8g vs %.8g)' % (where, what, worst, val, V2),
+                 variant=tag, what='stage2_transport', stage=2)
+        try:
+            vb, _ = pf.orc_nodal_balance(r2v, tag=tag)
+            for v_ in vb[:1]:
+                viol('%s: %s' % (where, v_['detail']), variant=tag, what='stage2_reported_dispatch', stage=2)
+        except Exception as e:
+            viol('%s: reading the dispatch output raises %s' % (where, type(e).__name__), variant=tag, what='stage2_output_raises', stage=2)
+        try:
+            d2 = r2v['out']['DCF']
+            ao_ = rec['portf'].assets
+            bo_ = pf.asset_blocks(rec)
+            for k, a in enumerate(r2v['portf'].assets):
+                lo, hi = bo_[ao_[order[k] if order is not None else k].name][0]
+                want = -float(np.dot(ro['op'].c[lo:hi], x2[lo:hi]))
+                got = float(d2[a.name].sum())
+                if abs(want - got) > 1e-6 * max(1.0, abs(V2), abs(V), abs(want)):
+                    viol('%s: cash flow reported for asset %r is %.8g but its own variables cost %.8g' % (where, a.name, got, -want), variant=tag, what='stage2_dcf', stage=2)
+                    break
+        except Exception as e:
+            viol('%s: reading the output raises %s' % (where, type(e).__name__), variant=tag, what='stage2_output_raises', stage=2)
+
     for tag, sv, order in variants:
         r['evaluated'] += 1
         try:
@@ -459,6 +683,7 @@ def run_case(scn, drv):
         if abs(Vv - V) > tol:
             viol('%s: optimal value %.8g, original %.8g' % (tag, Vv, V), variant=tag, what='value')
             continue
+        second_stage(tag, rv, order)
         if order is None:
             continue
         x = transport_back(rv, rec, order)
